@@ -1,4 +1,4 @@
-From Coq Require Import List NArith Bool Lia.
+From Coq Require Import List NArith ZArith Bool Lia.
 From MV Require Import C18.Model C18.Spec.
 Import ListNotations.
 Local Open Scope N_scope.
@@ -134,4 +134,20 @@ Proof.
   revert t; induction ops as [|o ops IH]; intros t H; cbn.
   - unfold timer_close. rewrite H. reflexivity.
   - apply IH. destruct o; cbn; rewrite ?H; auto.
+Qed.
+
+(* ---- Timestamps ---- *)
+Lemma ts_at_creation w0 w1 : ts_value false w0 w1 = since_epoch w0.
+Proof. reflexivity. Qed.
+Lemma ts_on_close w0 w1 : ts_value true w0 w1 = since_epoch w1.
+Proof. reflexivity. Qed.
+Lemma since_epoch_before w : (w < 0)%Z -> since_epoch w = 0.
+Proof. intros H. unfold since_epoch. apply Z.ltb_lt in H. rewrite H. reflexivity. Qed.
+Lemma since_epoch_after w : (0 <= w)%Z -> Z.of_N (since_epoch w) = w.
+Proof. intros H. unfold since_epoch. destruct (Z.ltb_spec w 0); [lia|]. apply Z2N.id. exact H. Qed.
+Lemma micros_exact d : ts_micros d * 1000 <= d < (ts_micros d + 1) * 1000.
+Proof.
+  unfold ts_micros. assert (Hn : 1000 <> 0) by lia.
+  pose proof (N.div_mod d 1000 Hn) as H1. pose proof (N.mod_lt d 1000 Hn) as H2.
+  remember (d / 1000) as q. remember (d mod 1000) as r. clear Heqq Heqr. lia.
 Qed.
